@@ -29,7 +29,8 @@ PRESENT = ["default", "shuffled", "dup-index", "str-index", "desc-range", "named
 
 
 def plan(tier):
-    return {"batches": NB[tier], "batch_timeout_s": 3000}
+    # thorough: one extra batch runs the repository's own test suite under the contracts (vf/suite_stage.py)
+    return {"batches": NB[tier] + (1 if tier == "thorough" else 0), "batch_timeout_s": 3000}
 
 
 def present(frame, how, rng):
@@ -133,6 +134,12 @@ def tied_limit(case, frames, engine="pandas"):
 
 
 def run_batch(seed, batch, tier):
+    if batch == NB[tier]:
+        from vf import suite_stage
+
+        b = Batch(PID, seed, batch, tier)
+        suite_stage.run(b, PID)
+        return b.result()
     import data_algebra
     import polars as pl
 
@@ -224,6 +231,8 @@ def run_batch(seed, batch, tier):
 
 
 def inconclusive(counters, sigs, tier):
+    if tier == "thorough" and counters.get("suite_stage", {}).get("ran", 0) == 0:
+        return "the repository-suite-under-monitors stage did not run: %s" % counters.get("suite_stage")
     mc = counters.get("monitor_calls", {})
     checked = sum(v for k, v in mc.items() if k.startswith("c19_inputs_checked:") and not k.endswith(":0"))
     if checked < 100:
